@@ -263,3 +263,28 @@ func (p *Program) fnMeta(fn *ssa.Function) *fnMetaT {
 	p.metas.Store(fn, m)
 	return m
 }
+
+// LibraryFuncs lists every function with a body in the arche packages whose
+// source file is not part of the harness overlay.
+func (p *Program) LibraryFuncs() []string {
+	var out []string
+	for fn := range ssautil.AllFunctions(p.Prog) {
+		if fn.Blocks == nil || fn.Pkg == nil || !strings.HasPrefix(fn.Pkg.Pkg.Path(), ModPath) {
+			continue
+		}
+		if fn.Synthetic != "" {
+			continue
+		}
+		pos := p.Prog.Fset.Position(fn.Pos())
+		if strings.Contains(pos.Filename, "zz_verif") || strings.HasSuffix(pos.Filename, "_test.go") {
+			continue
+		}
+		n := 0
+		for _, b := range fn.Blocks {
+			n += len(b.Instrs)
+		}
+		out = append(out, fmt.Sprintf("%s\t%d\t%s", strings.TrimPrefix(fn.String(), ModPath+"/"), n, filepath.Base(pos.Filename)))
+	}
+	sort.Strings(out)
+	return out
+}
